@@ -17,7 +17,9 @@ Definition P (l : list inl) : block := BPara PNormal l.
 
 Definition rich_doc : doc := mkdoc
   [ BPara (PHeading 1) [IRun (v 1); IRun (v 2)];
-    P [IRun (v 3); ITab; IRun (v 4); IBreak; IRun (v 5); IDel (x 1 1); IComment (x 2 1)];
+    P [IRun (v 3); ITab; IRun (v 4); IBreak BrLine; IRun (v 5); IDel (x 1 1); IComment (x 2 1)];
+    P [IRun (v 22); IBreak BrPage; IRun (v 23); IBreak BrColumn; IRun (v 24); IBreak BrWrap; IRun (v 25); IBreak BrCr;
+       IRun (v 26); IMark; IRun (v 27)];
     P [IWrap KLink [IRun (v 6); IWrap KIns [IRun (v 7)]]; IWrap KSdt [IRun (v 8)]; IWrap KField [IRun (v 9)]];
     P [];
     BSdt [P [IRun (v 17)]; BSdt [BPara (PHeading 2) [IRun (v 18)]]];
@@ -27,7 +29,7 @@ Definition rich_doc : doc := mkdoc
 
 Lemma rich_doc_ok :
   wf_doc ws0 cls0 rich_doc = true /\ supported_docx rich_doc = true /\
-  List.length (segments rich_doc) = 17%nat /\ excluded rich_doc <> [].
+  List.length (segments rich_doc) = 22%nat /\ excluded rich_doc <> [].
 Proof. repeat split; try (vm_compute; reflexivity). vm_compute. discriminate. Qed.
 
 Definition d_nested : doc := mkdoc
@@ -64,7 +66,7 @@ Lemma moved_from_refuted :
             forallb (fun c => ws0 c || is_vis cls0 c) (docx_text ws0 d) = false.
 Proof. exists d_moved. split; vm_compute; reflexivity. Qed.
 
-Definition d_tab : doc := mkdoc [P [IRun (v 1); ITab; IRun (v 2); IBreak; IRun (v 3)]].
+Definition d_tab : doc := mkdoc [P [IRun (v 1); ITab; IRun (v 2); IBreak BrLine; IRun (v 3)]].
 Lemma tab_break_refuted_before_fix :
   exists d, wf_doc ws0 cls0 d = true /\ supported_docx d = true /\
             words ws0 (unfixed_docx_text ws0 d) <> segments d.
